@@ -596,6 +596,10 @@ func c17WellFormed(key string, v []byte) bool {
 	return true
 }
 
+// number of entries that are expired when the concurrent goroutines start (each is found expired
+// by some reader for the first time at a different moment of the run)
+const c17Expired = 20000
+
 func c17child(e *env) {
 	g, iters, tracePath := 2, 1000, ""
 	for _, a := range e.args {
@@ -614,6 +618,12 @@ func c17child(e *env) {
 	for _, k := range shared {
 		h.Set(common.SetRequest{Key: []byte(k), Data: []byte(c17Record(k, 0, 0))})
 	}
+	// entries that have expired by the time the goroutines start: reading them concurrently must
+	// be as harmless as reading never-stored keys
+	for j := 0; j < c17Expired; j++ {
+		h.Set(common.SetRequest{Key: []byte(fmt.Sprintf("expired%d", j)), Data: []byte("old"), Exptime: 1})
+	}
+	time.Sleep(2100 * time.Millisecond)
 	out := c17ChildOut{Traces: make([]c17ChildTrace, g), Counts: map[string]int{}}
 	var mu sync.Mutex
 	addErr := func(s string) {
@@ -664,7 +674,11 @@ func c17child(e *env) {
 					n := 1 + r.Intn(3)
 					gr := common.GetRequest{}
 					for j := 0; j < n; j++ {
-						gr.Keys = append(gr.Keys, []byte(fmt.Sprintf("missing%d", r.Intn(8))))
+						if r.Bool() {
+							gr.Keys = append(gr.Keys, []byte(fmt.Sprintf("missing%d", r.Intn(8))))
+						} else {
+							gr.Keys = append(gr.Keys, []byte(fmt.Sprintf("expired%d", r.Intn(c17Expired))))
+						}
 						gr.Opaques = append(gr.Opaques, uint32(j))
 						gr.Quiet = append(gr.Quiet, false)
 					}
@@ -672,7 +686,7 @@ func c17child(e *env) {
 						dc, ec := h.Get(gr)
 						for x := range dc {
 							if !x.Miss {
-								addErr(fmt.Sprintf("goroutine %d: Get of never-stored key %q is a hit (%q)", i, x.Key, x.Data))
+								addErr(fmt.Sprintf("goroutine %d: Get of never-stored or expired key %q is a hit (%q)", i, x.Key, x.Data))
 							}
 						}
 						for range ec {
@@ -681,7 +695,7 @@ func c17child(e *env) {
 						dc, ec := h.GetE(gr)
 						for x := range dc {
 							if !x.Miss {
-								addErr(fmt.Sprintf("goroutine %d: GetE of never-stored key %q is a hit (%q)", i, x.Key, x.Data))
+								addErr(fmt.Sprintf("goroutine %d: GetE of never-stored or expired key %q is a hit (%q)", i, x.Key, x.Data))
 							}
 						}
 						for range ec {
@@ -863,7 +877,7 @@ func c17Judge(o *c17ConcObs) map[string]rig.GoFailure {
 			}
 		}
 		f["mapfault"] = rig.GoFailure{Kind: "counterexample",
-			What:   fmt.Sprintf("the Go runtime terminated the process: %q with %d goroutines sharing one handlers/inmem instance (reads of never-stored keys mixed with writes)", line, d.Goroutines),
+			What:   fmt.Sprintf("the Go runtime terminated the process: %q with %d goroutines sharing one handlers/inmem instance (reads of never-stored and of expired keys mixed with writes)", line, d.Goroutines),
 			Input:  d,
 			Detail: fmt.Sprintf("child exit status %d after %s; stderr:\n%s", o.exit, o.wall.Round(time.Millisecond), c17Head(o.stderr, 40))}
 	case o.timedOut:
